@@ -5,6 +5,8 @@ import (
 	"math/rand/v2"
 	"net"
 	"time"
+
+	dtls "github.com/pion/dtls/v3"
 )
 
 // C09: an (epoch, sequence number) pair is never emitted twice; per epoch the
@@ -68,6 +70,10 @@ type NonceMonitor struct {
 	highest map[uint16]int64
 	Records int
 	Epochs  map[uint16]bool
+	// Dec13, if set, decodes unified-header records (sender's write secrets)
+	Dec13     *Decoder13
+	Decoded13 int
+	Undecoded int
 }
 
 func NewNonceMonitor() *NonceMonitor {
@@ -83,7 +89,17 @@ func (m *NonceMonitor) Feed(em Emission, cidLen int) error {
 	}
 	for _, r := range recs {
 		if r.Unified {
-			continue
+			if m.Dec13 == nil {
+				continue
+			}
+			e, _, _, sq, oerr := m.Dec13.Open(r)
+			if oerr != nil {
+				m.Undecoded++ // e.g. a handshake-epoch record whose secret is no longer retained
+
+				continue
+			}
+			r.Epoch, r.Seq = e, sq
+			m.Decoded13++
 		}
 		m.Records++
 		m.Epochs[r.Epoch] = true
@@ -220,9 +236,18 @@ func c09Run(rc *RunCtx, params any) {
 			s.Run(func() bool { return false }, 3*time.Second)
 		}
 	}
+	// DTLS 1.3: record numbers are encrypted on the wire; decode them with the sender's own secrets
+	var dec13 map[string]*Decoder13
+	if cfg.C.MaxVer == 13 && established {
+		cst, _ := pair.Client.ConnectionState()
+		cw, _ := dtls.VerifTrafficSecrets(pair.Client)
+		sw, _ := dtls.VerifTrafficSecrets(pair.Server)
+		dec13 = map[string]*Decoder13{"c": NewDecoder13(uint16(cst.CipherSuiteID), cw), "s": NewDecoder13(uint16(cst.CipherSuiteID), sw)}
+	}
 	pair.Teardown()
 	// oracle over everything each endpoint handed to its socket
 	cm, sm := NewNonceMonitor(), NewNonceMonitor()
+	cm.Dec13, sm.Dec13 = dec13["c"], dec13["s"]
 	for _, em := range n.Emits {
 		var err error
 		if em.Ep == "c" {
@@ -239,6 +264,12 @@ func c09Run(rc *RunCtx, params any) {
 
 			break
 		}
+	}
+	if cm.Decoded13+sm.Decoded13 > 0 {
+		s.Probe("dtls13-record-numbers-decoded")
+	}
+	if cm.Undecoded+sm.Undecoded > 0 {
+		s.Probe("dtls13-records-without-retained-secret")
 	}
 	if len(cm.Epochs) > 1 || len(sm.Epochs) > 1 {
 		s.Probe("records-in-epoch>=1-checked")
